@@ -84,7 +84,27 @@ fn schedules(t: &mut Tape, n: usize) -> Vec<Vec<u16>> {
 
 pub fn check(tape: &[u32], thorough: bool) -> CheckResult {
     let mut t = Tape::new(tape);
-    let s = build_sprite(&mut t, &cfg());
+    let mut s = build_sprite(&mut t, &cfg());
+    let big_chunk = t.chance(1, 3);
+    if big_chunk {
+        // a chunk larger than 64 KiB (incompressible pixels), so buffered/blockwise payload readers are exercised
+        let bpp = s.fmt.bpp();
+        let (w, h) = (100 + t.below(80) as u16, (70000 / bpp / 100) as u16 + 20 + t.below(60) as u16);
+        let pal: Vec<u8> = s.effective_palette().map(|m| m.keys().filter(|k| **k < 256).map(|k| *k as u8).collect()).unwrap_or_default();
+        let mut r = crate::encode::Rng(t.raw64());
+        let n = w as usize * h as usize * bpp;
+        let pixels: Vec<u8> = match s.fmt {
+            crate::model::Fmt::Indexed if pal.is_empty() => vec![],
+            crate::model::Fmt::Indexed => (0..n).map(|_| pal[(r.next() % pal.len() as u64) as usize]).collect(),
+            _ => (0..n).map(|_| r.next() as u8).collect(),
+        };
+        if !pixels.is_empty() {
+            let li = s.layers.len() as u16;
+            s.layers.push(crate::model::Layer { flags: 3, kind: crate::model::LayerKind::Image, level: 0, blend: 0, opacity: 200, name: "big".into(), user_data: None });
+            let fi = t.below(s.frames.len() as u32) as usize;
+            s.frames[fi].cels.push(crate::model::Cel { layer: li, x: -3, y: -2, opacity: 255, content: crate::model::CelContent::Image { w, h, pixels }, user_data: None });
+        }
+    }
     let plan = build_plan(&mut t);
     let enc = encode(&s, &plan);
     let bytes = &enc.bytes;
@@ -192,6 +212,9 @@ pub fn check(tape: &[u32], thorough: bool) -> CheckResult {
     o.counters.push(("schedules_with_interrupted", interrupted));
     o.counters.push(("fault_injections", faults));
     o.labels.push(if l <= 8192 { "every-offset".into() } else { "sampled-offsets".into() });
+    if enc.chunks.iter().any(|c| c.end - c.start > 65536 + 6) {
+        o.labels.push("chunk>64KiB".into());
+    }
     o.sample = Some(json!({"file_len": bytes.len(), "last_frame_end": l, "schedules": scheds.iter().take(4).collect::<Vec<_>>(), "kinds": kinds.iter().map(|k| format!("{:?}", k)).collect::<Vec<_>>()}));
     Ok(o)
 }
